@@ -106,7 +106,7 @@ def main():
                 kind, cnt = line.split()
                 for i in range(int(cnt)):
                     bykind.setdefault(kind, []).append((f, kind, i, None, None))
-        weights = {"rename": 0.28, "tmpret": 0.22, "flip": 0.2, "swap": 0.12, "ifelse": 0.06, "incr": 0.06, "opassign": 0.06}
+        weights = json.loads(os.environ.get("EQUIV_WEIGHTS", "null")) or {"rename": 0.15, "tmpret": 0.12, "flip": 0.12, "swap": 0.08, "ifelse": 0.04, "incr": 0.04, "opassign": 0.04, "extract": 0.14, "splitdecl": 0.09, "varform": 0.09, "rangeidx": 0.09}
         for kind, lst in bykind.items():
             random.shuffle(lst)
             cands += lst[:max(1, int(n * weights.get(kind, 0.05)))]
